@@ -176,7 +176,25 @@ class Ctx(object):
     def rule(self, rid, desc, floor=1):
         return RuleRun(self, rid, desc, floor)
 
+    def vocabulary(self):
+        if getattr(self, '_vocab', None) is None:
+            v = set()
+            with open(os.path.join(VERIF, 'spec', 'vocabulary.txt')) as fh:
+                for line in fh:
+                    line = line.strip()
+                    if line and not line.startswith('#'):
+                        v.add(line)
+            self._vocab = v
+        return self._vocab
+
+    def new_helper(self, path):
+        """A crate-local function the oracle vocabulary does not know: inline it."""
+        return path not in self.vocabulary()
+
     def evaluator(self, depth=4, inline_filter=None):
+        if depth == 0 and inline_filter is None:
+            # even "no inlining" reads through helpers that did not exist when the tables were written
+            return S.Evaluator(self.fns, inline_depth=3, inline_filter=self.new_helper)
         return S.Evaluator(self.fns, inline_depth=depth, inline_filter=inline_filter)
 
     def events(self, path, depth=0, inline_filter=None):
